@@ -64,9 +64,6 @@ Definition pr_outcome (o : outcome) : string :=
 (* the rendering the specification is instantiated with: Floats.render_float on its domain *)
 Definition rf (f : spec_float) : string := match render_float f with Some t => t | None => "?" end.
 
-Definition stored_text (d : dest) : string :=
-  match d with DPtr (VStr s) | DPtr (VBytes s) => s | _ => "" end.
-
 Fixpoint dedup (l : list string) : list string :=
   match l with
   | [] => []
